@@ -17,6 +17,6 @@ CONSTANTS
   FBits = 3
   FMaxTicks = 2
   FBug = "guard_reversed"
-  FFixed = {}
+  FFixed = {"fresh_fake_nodes"}
 INVARIANT InvFlow
 CHECK_DEADLOCK FALSE
